@@ -392,13 +392,13 @@ fn c09_accept_refill_resets_length() {
 #[kani::proof]
 fn c13_net_constant_tables() {
     use super::{Domain, Level, Protocol, Type};
-    assert!(RecvFlag::OOB.0 == 0x1 && RecvFlag::PEEK.0 == 0x2 && RecvFlag::WAIT_ALL.0 == 0x100);
-    assert!(RecvFlag::ERR_QUEUE.0 == 0x2000 && RecvFlag::CMSG_CLOEXEC.0 == 0x4000_0000);
-    assert!(SendFlag::OOB.0 == 0x1 && SendFlag::DONT_ROUTE.0 == 0x4 && SendFlag::EOR.0 == 0x80);
-    assert!(SendFlag::CONFIRM.0 == 0x800 && SendFlag::MORE.0 == 0x8000 && SendFlag::FAST_OPEN.0 == 0x2000_0000);
-    assert!(Domain::UNIX.0 == 1 && Domain::IPV4.0 == 2 && Domain::IPV6.0 == 10 && Domain::PACKET.0 == 17 && Domain::VSOCK.0 == 40);
-    assert!(Type::STREAM.0 == 1 && Type::DGRAM.0 == 2 && Type::RAW.0 == 3 && Type::RDM.0 == 4 && Type::SEQPACKET.0 == 5 && Type::DCCP.0 == 6);
-    assert!(Protocol::ICMPV4.0 == 1 && Protocol::TCP.0 == 6 && Protocol::UDP.0 == 17 && Protocol::DCCP.0 == 33 && Protocol::ICMPV6.0 == 58 && Protocol::SCTP.0 == 132);
-    assert!(Level::IPV4.0 == 0 && Level::SOCKET.0 == 1 && Level::TCP.0 == 6 && Level::UDP.0 == 17 && Level::IPV6.0 == 41);
+    assert!(RecvFlag::OOB.0 == 0x1 && RecvFlag::PEEK.0 == 0x2 && RecvFlag::WAIT_ALL.0 == 0x100, "RecvFlag OOB/PEEK/WAIT_ALL");
+    assert!(RecvFlag::ERR_QUEUE.0 == 0x2000 && RecvFlag::CMSG_CLOEXEC.0 == 0x4000_0000, "RecvFlag ERR_QUEUE/CMSG_CLOEXEC");
+    assert!(SendFlag::OOB.0 == 0x1 && SendFlag::DONT_ROUTE.0 == 0x4 && SendFlag::EOR.0 == 0x80, "SendFlag OOB/DONT_ROUTE/EOR");
+    assert!(SendFlag::CONFIRM.0 == 0x800 && SendFlag::MORE.0 == 0x8000 && SendFlag::FAST_OPEN.0 == 0x2000_0000, "SendFlag CONFIRM/MORE/FAST_OPEN");
+    assert!(Domain::UNIX.0 == 1 && Domain::IPV4.0 == 2 && Domain::IPV6.0 == 10 && Domain::PACKET.0 == 17 && Domain::VSOCK.0 == 40, "Domain");
+    assert!(Type::STREAM.0 == 1 && Type::DGRAM.0 == 2 && Type::RAW.0 == 3 && Type::RDM.0 == 4 && Type::SEQPACKET.0 == 5 && Type::DCCP.0 == 6, "Type");
+    assert!(Protocol::ICMPV4.0 == 1 && Protocol::TCP.0 == 6 && Protocol::UDP.0 == 17 && Protocol::DCCP.0 == 33 && Protocol::ICMPV6.0 == 58 && Protocol::SCTP.0 == 132, "Protocol");
+    assert!(Level::IPV4.0 == 0 && Level::SOCKET.0 == 1 && Level::TCP.0 == 6 && Level::UDP.0 == 17 && Level::IPV6.0 == 41, "Level");
     kani::cover!(true);
 }
